@@ -223,6 +223,9 @@ func configCase(cs *fw.Case) {
 		if in.Transformed {
 			tol = 4*float64(in.ProbeLen+1)*maxTol + kLogPdf*eps*math.Abs(ref[i].v)
 		}
+		if in.LogPdfTol != nil {
+			tol = in.LogPdfTol(p0, pr, ref[i].v)
+		}
 		if !sameFloat(ref[i].v, o.v, tol) {
 			fail("logpdf", fmt.Sprintf("LogPdf at probe %d (%s): imported distribution %v, original %v (allowed difference %g)", i, safeString(pr), o.v, ref[i].v, tol))
 			return
